@@ -219,10 +219,13 @@ def raster_cases(draw):
     kind = draw(st.sampled_from(KINDS))
     opts = {}
     border = draw(st.sampled_from([None, None, 0, 1, 2, 3, 4, 5, 7, 10]))
+    if n <= 25 and draw(st.integers(0, 7)) == 0:
+        # quiet zone as wide as / wider than the symbol itself
+        border = draw(st.sampled_from([n - 1, n, n + 1, 2 * n + 3]))
     if border is not None or draw(st.booleans()):
         opts['border'] = border
     if kind not in ('txt', 'ans', 'compact'):
-        cap = max(1, 520 // (n + 8))
+        cap = max(1, 520 // (n + 2 * (border or 4)))
         sc = draw(st.sampled_from([1, 1, 2, 3, 4, 5, 7, 8, 10, 1.5, 2.9, 3.0, 4.7, 0.5, 0, -1, 0.99]))
         if sc > cap:
             sc = cap
